@@ -185,7 +185,12 @@ func runSeqX(h *c06.History) (kit.Case, error) {
 	if recachedExpired(h, cachedOuts, plain) {
 		tags["F23:plain-get-recached-expired-ttl-row"] = true
 	}
-	if j := firstDiff(cachedOuts, plain); j >= 0 {
+	// a differing output need not be the judged one (a plain Get of a TTL row is left open by the interface and
+	// may differ first): the tags look at every differing output
+	for j := range cachedOuts {
+		if cachedOuts[j] == plain[j] {
+			continue
+		}
 		if twoHandles && !faults && otherHandleTouched(h, j) {
 			tags["HANDLES:second-handle-has-its-own-cache"] = true
 		}
@@ -209,15 +214,6 @@ func runSeqX(h *c06.History) (kit.Case, error) {
 		Desc:       seqxCase{Kind: "seqx", History: h, Plain: plain},
 		Tags:       tl,
 	}, nil
-}
-
-func firstDiff(a, b []string) int {
-	for j := range a {
-		if a[j] != b[j] {
-			return j
-		}
-	}
-	return -1
 }
 
 // keys (pk/cc, hex) an op addresses
